@@ -127,6 +127,7 @@ package engine
 //@   ensures [C06.open.noinitial] initial == nil ==> calls((*socket).sendPacket) == 1
 //@   ensures [C06.open.event]   emitted(s.EventEmitter, "open") == 1
 //@   ensures [C06.open.mode,C07.mode] (old(s.protocol) == 3 ==> calls((*socket).resetPingTimeout) == 1 && calls((*socket).schedulePing) == 0) && (old(s.protocol) != 3 ==> calls((*socket).schedulePing) == 1 && calls((*socket).resetPingTimeout) == 0)
+//@   ensures [C07.open.timers,C09.open.timers] hbOK(s)
 //@   ensures [C06.open.sid]     calls(transports.Transport.SetSid) == 1 && arg(transports.Transport.SetSid, 1, sid) == old(s.id)
 //@   callsite json.Marshal#1
 //@     assert [C06.open.json.sid]      mapval(unbox($v, map[string]any), "sid") == iface(s.id) && maphas(unbox($v, map[string]any), "sid")
@@ -178,6 +179,26 @@ package engine
 //@   modifies *
 //@   ensures [C08.settransport] s.Transport() == transport && s.ReadyState() == old(s.ReadyState())
 //@   ensures [C08.setlisteners] calls(types.EventEmitter.On) == 3 && calls(types.EventEmitter.Once) == 2 && calls((*types.Slice).Push) == 1
+// the session's listeners on its transport. Payload typing of the events is what the transports' emit sites establish
+// (C09.evt.packet, C09.evt.error in package transports)
+//@ func (*socket).setTransport$1(err)
+//@   props C09, C03
+//@   requires sockLive(s) && len(err) >= 1 && typeis(err[0], error)
+//@   modifies *
+//@   ensures [C03.l.error] calls((*socket).onError) == 1
+//@ func (*socket).setTransport$3(packets)
+//@   props C09, C02
+//@   requires sockLive(s) && hbOK(s)
+//@   requires len(packets) > 0 ==> typeis(packets[0], *packet.Packet) && unbox(packets[0], *packet.Packet) != nil
+//@   modifies *
+//@   ensures [C02.l.packet] len(packets) > 0 ==> calls((*socket).onPacket) == 1 && arg((*socket).onPacket, 1, data) == unbox(packets[0], *packet.Packet)
+//@   ensures [C02.l.nopacket] len(packets) == 0 ==> calls((*socket).onPacket) == 0
+//@ func (*socket).setTransport$5(arg0)
+//@   props C03
+//@   requires sockLive(s)
+//@   modifies *
+//@   ensures [C03.l.close] calls((*socket).OnClose) == 1 && arg((*socket).OnClose, 1, reason) == "transport close"
+
 // the cleanup registered for a transport detaches all five session listeners from it, so that a discarded transport
 // can no longer close, feed or flush the session
 //@ func (*socket).setTransport$6()
@@ -197,6 +218,7 @@ package engine
 //@   ensures [C07.deadline] calls(utils.ClearTimeout) == 1 && calls(utils.SetTimeout) == 1 && before(utils.ClearTimeout, 1, utils.SetTimeout, 1) && arg(utils.ClearTimeout, 1, timer) == old(s.pingTimeoutTimer.v)
 //@   ensures [C07.deadline.duration] arg(utils.SetTimeout, 1, sleep) == (s.protocol == 3 ? s.server.Opts().PingInterval() + s.server.Opts().PingTimeout() : s.server.Opts().PingTimeout())
 //@   ensures [C07.deadline.stored] s.pingTimeoutTimer.v == ret(utils.SetTimeout, 1)
+//@   ensures s.pingTimeoutTimer.v != nil
 //@ func (*socket).resetPingTimeout$1()
 //@   props C07, C03
 //@   requires sockLive(s)
@@ -208,6 +230,7 @@ package engine
 //@   requires s != nil && s.server != nil
 //@   modifies s.pingIntervalTimer
 //@   ensures [C07.pingarmed] calls(utils.SetTimeout) == 1 && arg(utils.SetTimeout, 1, sleep) == s.server.Opts().PingInterval() && s.pingIntervalTimer.v == ret(utils.SetTimeout, 1)
+//@   ensures s.pingIntervalTimer.v != nil
 // the ping timer body: the ping goes out and the pong deadline starts at once - not when (or if) the ping is flushed
 //@ func (*socket).schedulePing$1()
 //@   props C07
